@@ -1,8 +1,129 @@
 import Gonuts.Model.Sexp
-/-! Driver commands `wire.*` (stateless): filled in by the Wire model. Core-only imports. -/
-namespace Gonuts.Model.WireDriver
-open Gonuts
+import Gonuts.Model.MintDriver
+import Gonuts.Model.Wire
+/-!
+  Driver glue for the stateful `wire.*` commands (stream `wire`, C20): a `WSt` holds the model's HTTP
+  session (`Wire.WSess` = mint session + response cache + clock).  Core-only.
 
-def handle (_cmd : String) (_args : List Sexp) : Option Sexp := none
+    (wire.init fee feePct mpp maxMint maxBal maxMelt)            fresh mint, fresh server, now = 0
+    (wire.mint (mint.<op> …))                                     an event that reaches the mint without HTTP
+                                                                  (settle, extinvoice, notify, rotate, restart, fault, nofault);
+                                                                  answers what `mint.<op>` answers; `mint.restart` also
+                                                                  builds a new server (empty cache)
+    (wire.req METHOD (seg…) "url" "ctype" "body" len DEC pathSym lnFail (script…))
+         DEC = (ok PARSED) | syntax | type | empty | other
+         PARSED = none | (mintquote amt unit pk) | (mint q outs sig) | (swap ps outs [verdict]) | (meltquote inv unit mpp)
+                | (melt q ps) | (checkstate ys) | (restore outs)
+       → (status "body" (storage-trace…) (lightning-calls…) cacheLen info)
+    (wire.advance ns) (wire.tick stale) (wire.newserver)
+    (wire.cache.set "k" "v" durNs) (wire.cache.get "k") (wire.cache.delexp) (wire.cache.len) (wire.cache.reset)
+-/
+namespace Gonuts.Model.WireDriver
+open Gonuts Gonuts.Model Gonuts.Model.Mint Gonuts.Model.Wire Gonuts.Model.MintDriver
+
+structure WSt where
+  s : WSess := {}
+  deriving Inhabited
+
+def int! (s : Sexp) : Option Int := MintDriver.int? s
+
+def strs? : Sexp → Option (List String)
+  | .list xs => xs.mapM Sexp.asStr?
+  | _ => none
+
+def parsed? : Sexp → Option Parsed
+  | .atom "none" => some .none
+  | .list [.atom "mintquote", amt, unit, pk] => do
+    some (.mintQuote (← u64? amt) ((← unit.asStr?) == "sat") (← pk? pk))
+  | .list [.atom "mint", q, outs, sig] => do some (.mint (← int? q) (← listOf? bmsg? outs) (← qsig? sig))
+  | .list [.atom "swap", ps, outs] => do some (.swap (← listOf? proof? ps) (← listOf? bmsg? outs) none)
+  | .list [.atom "swap", ps, outs, v] => do some (.swap (← listOf? proof? ps) (← listOf? bmsg? outs) (← verdict? v))
+  | .list [.atom "meltquote", inv, unit, mpp] => do
+    let inv ← (match inv with
+      | .list [.atom "inv", h] => do some (InvReq.inv (← h.asNat?))
+      | .list [.atom "noamount", h] => do some (InvReq.inv (← h.asNat?))
+      | .atom "bad" => some InvReq.bad
+      | _ => none)
+    let mpp ← (match mpp with
+      | .atom "none" => some none
+      | .list [.atom "mpp", m] => do some (some (← u64? m))
+      | _ => none)
+    some (.meltQuote inv ((← unit.asStr?) == "sat") mpp)
+  | .list [.atom "melt", q, ps] => do some (.melt (← int? q) (← listOf? proof? ps))
+  | .list [.atom "checkstate", ys] => do some (.checkState (← listOf? yref? ys))
+  | .list [.atom "restore", outs] => do some (.restore (← listOf? bmsg? outs))
+  | _ => none
+
+def decode? : Sexp → Option Decode
+  | .list [.atom "ok", p] => do some (.ok (← parsed? p))
+  | .atom "syntax" => some .syntaxErr
+  | .atom "type" => some .typeErr
+  | .atom "empty" => some .empty
+  | .atom "other" => some .other
+  | _ => none
+
+def infoAtom : Info → String
+  | .static => "static"
+  | .refused _ => "refused"
+  | .hit _ => "hit"
+  | .executed _ _ stored => if stored then "stored" else "executed"
+  | .keys true => "keys-cache"
+  | .keys false => "keys"
+  | .info => "info"
+  | .unmodelled => "unmodelled"
+
+def ranMint : Info → Bool
+  | .executed .. | .info => true
+  | _ => false
+
+def handleSt (st : WSt) (cmd : String) (args : List Sexp) : Option (WSt × Sexp) :=
+  match cmd, args with
+  | "wire.init", [fee, feePct, mpp, maxMint, maxBal, maxMelt] => do
+    let cfg : Cfg := { mpp := ← mpp.asBool?, maxMint := ← u64? maxMint, maxBalance := ← u64? maxBal, maxMelt := ← u64? maxMelt }
+    some ({ s := { mint := initSess (← u64? fee) (← feePct.asBool?) cfg } }, l [a "ok"])
+  | "wire.mint", [.list (.atom mcmd :: margs)] => do
+    if mcmd == "mint.init" then none else
+    let (m1, out) ← MintDriver.handle st.s.mint mcmd margs
+    let s1 := { st.s with mint := m1 }
+    some ({ s := if mcmd == "mint.restart" then newServer s1 else s1 }, out)
+  | "wire.req", [method, segs, url, ctype, body, len, dec, pathSym, lnFail, script] => do
+    let r : Request := {
+      method := ← method.asStr?, segs := ← strs? segs, url := ← url.asStr?, ctype := ← ctype.asStr?,
+      body := ← body.asStr?, bodyLen := ← len.asNat?, dec := ← decode? dec, pathSym := ← int? pathSym,
+      lnFail := ← lnFail.asBool?, script := ← listOf? ans? script }
+    let (s1, resp, inf) := handleX st.s r
+    let calls := if ranMint inf then
+        (match inf with
+         | .executed _ (.checkState ..) _ => s1.mint.w.ln.calls.mergeSort (fun x y => x.hash ≤ y.hash)
+         | _ => s1.mint.w.ln.calls)
+      else []
+    let trace := if ranMint inf then s1.mint.w.trace else []
+    -- a state check that re-polls two or more melt quotes does so in Go's map iteration order: compare as a multiset
+    let trace := match inf with
+      | .executed _ (.checkState ..) _ =>
+        if (trace.filter (· == "db.GetMeltQuote")).length ≥ 2 then trace.mergeSort (fun x y => decide (x ≤ y)) else trace
+      | _ => trace
+    some ({ s := s1 }, l [Sexp.ofNat resp.status, .str resp.body, l (trace.map a), l (calls.map callSx),
+                          Sexp.ofNat s1.cache.length, a (infoAtom inf)])
+  | "wire.advance", [dt] => do some ({ s := advance st.s (← int? dt) }, l [a "ok"])
+  | "wire.tick", [stale] => do
+    let s1 := tick st.s (← stale.asBool?)
+    some ({ s := s1 }, l [a "ok", Sexp.ofNat s1.cache.length])
+  | "wire.newserver", [] => some ({ s := newServer st.s }, l [a "ok"])
+  | "wire.cache.reset", [] => some ({ s := { st.s with cache := [] } }, l [a "ok"])
+  | "wire.cache.set", [k, v, dur] => do
+    let c := st.s.cache.set (← k.asStr?) (← v.asStr?) (st.s.now + (← int? dur)) cacheLimit
+    some ({ s := { st.s with cache := c } }, l [a "ok", Sexp.ofNat c.length])
+  | "wire.cache.get", [k] => do
+    let (c, r) := st.s.cache.get (← k.asStr?) st.s.now
+    some ({ s := { st.s with cache := c } },
+      match r with
+      | some v => l [a "found", .str v, Sexp.ofNat c.length]
+      | none => l [a "none", Sexp.ofNat c.length])
+  | "wire.cache.delexp", [] =>
+    let c := st.s.cache.deleteExpired st.s.now
+    some ({ s := { st.s with cache := c } }, l [a "ok", Sexp.ofNat c.length])
+  | "wire.cache.len", [] => some (st, l [a "ok", Sexp.ofNat st.s.cache.length])
+  | _, _ => none
 
 end Gonuts.Model.WireDriver
